@@ -146,15 +146,7 @@ func CheckMain(id, tier string) int {
 			}
 			// wall-clock backstop: a worker that makes no progress (e.g. blocked forever) is stopped; this only
 			// ever downgrades the run to exhaustive:false, it never raises an alarm
-			deadline := 20 * time.Minute
-			if tier == "thorough" {
-				deadline = 3 * time.Hour
-			}
-			if v := os.Getenv("VERIF_WORKER_DEADLINE_S"); v != "" {
-				if n, e := strconv.Atoi(v); e == nil {
-					deadline = time.Duration(n) * time.Second
-				}
-			}
+			deadline := workerDeadline(tier)
 			err := cmd.Start()
 			timedOut := false
 			if err == nil {
@@ -280,6 +272,7 @@ func CheckMain(id, tier string) int {
 	knownSeen := []string{}
 	newViol := 0
 	os.MkdirAll(filepath.Join(VerifDir(), "replays"), 0o755)
+	rerunSigs := map[string]map[string]bool{}
 	for _, s := range sigs {
 		v := viol[s]
 		// confirm: replay 5x in this process, must reproduce the same signature every time
@@ -288,21 +281,41 @@ func CheckMain(id, tier string) int {
 			// the case does not fail in isolation: re-run the shard that found it, twice, in fresh
 			// processes. If the same signature appears both times the violation is deterministic but
 			// depends on state that earlier cases left behind in the process (library-global state).
+			// (each shard is re-run at most twice per check run, whatever the number of signatures it produced;
+			// the re-runs honour the same wall-clock deadline as the first run and are killed beyond it)
 			ok := true
 			for k := 0; k < 2 && ok; k++ {
-				out := filepath.Join(scratch, fmt.Sprintf("confirm-%d-%d.json", v.Shard, k))
-				cmd := exec.Command(exe, "worker", id, tier, strconv.Itoa(v.Shard), strconv.Itoa(v.NShards), out)
-				cmd.Env = append(os.Environ(), "GOMAXPROCS=1", "VERIF_WORKER=1")
-				cmd.Run()
-				ok = false
-				if b, err := os.ReadFile(out); err == nil {
-					r := new(WorkerResult)
-					if json.Unmarshal(b, r) == nil {
-						for _, x := range r.Violations {
-							ok = ok || x.Signature == v.Signature
+				key := fmt.Sprintf("%d-%d", v.Shard, k)
+				got, done := rerunSigs[key]
+				if !done {
+					got = map[string]bool{}
+					out := filepath.Join(scratch, fmt.Sprintf("confirm-%d-%d.json", v.Shard, k))
+					cmd := exec.Command(exe, "worker", id, tier, strconv.Itoa(v.Shard), strconv.Itoa(v.NShards), out)
+					cmd.Env = append(os.Environ(), "GOMAXPROCS=1", "VERIF_WORKER=1")
+					if os.Getenv("VERIF_WORKER_GOMAXPROCS") != "" || ck.ID == "C18" {
+						cmd.Env = append(os.Environ(), "VERIF_WORKER=1")
+					}
+					if cmd.Start() == nil {
+						fin := make(chan error, 1)
+						go func() { fin <- cmd.Wait() }()
+						select {
+						case <-fin:
+						case <-time.After(workerDeadline(tier)):
+							cmd.Process.Kill()
+							<-fin
 						}
 					}
+					if b, err := os.ReadFile(out); err == nil {
+						r := new(WorkerResult)
+						if json.Unmarshal(b, r) == nil {
+							for _, x := range r.Violations {
+								got[x.Signature] = true
+							}
+						}
+					}
+					rerunSigs[key] = got
 				}
+				ok = got[v.Signature]
 			}
 			if ok {
 				confirmed = true
@@ -404,6 +417,19 @@ func CheckMain(id, tier string) int {
 		fmt.Printf("  %-48s %d\n", k, m.Counters[k])
 	}
 	return exit
+}
+
+func workerDeadline(tier string) time.Duration {
+	deadline := 20 * time.Minute
+	if tier == "thorough" {
+		deadline = 3 * time.Hour
+	}
+	if v := os.Getenv("VERIF_WORKER_DEADLINE_S"); v != "" {
+		if n, e := strconv.Atoi(v); e == nil {
+			deadline = time.Duration(n) * time.Second
+		}
+	}
+	return deadline
 }
 
 func indent(s string) string { return "    " + strings.ReplaceAll(s, "\n", "\n    ") }
